@@ -112,6 +112,8 @@ class SiteNames:
             return here
         params = self.params.get((template, macro), [])
         probe = hole or expr
+        if not any(_mentions(expr, p) or _mentions(hole, p) for p in params):
+            return [(template, TOP, expr, hole)]      # reads render variables / globals only: those are the template's, not the macro's
         if not any(probe[i + len(p):i + len(p) + 1] in (".", "[") for p in params for i in _ident_spans(probe, p)):
             return here      # prints no field of a parameter object
         out: set[tuple[str, str, str, str]] = set()
@@ -119,7 +121,7 @@ class SiteNames:
         def go(scope: tuple[str, str], e: str, h: str, seen: tuple[tuple[str, str], ...]) -> bool:
             reads = {p for p in self.params.get(scope, []) if _mentions(e, p) or _mentions(h, p)}
             if scope[1] == TOP or not reads:
-                out.add((scope[0], scope[1], e, h))
+                out.add((scope[0], TOP, e, h))
                 return True
             if scope in self.open or scope in seen or len(seen) >= MAX_DEPTH or not self.callers.get(scope):
                 return False
